@@ -22,7 +22,7 @@ inductive Fn1 where
   | const (v : Val)
   | rangeList                -- n ↦ [0..n)
   | divInto (k : Int)        -- k / x   (ZeroDivisionError)
-  | raiseIfMod (k r : Nat)   -- raise ValueError when x % k == r else x
+  | raiseIfMod (k r : Nat) (exc : String := "ValueError")   -- raise the named exception when x % k == r else x
   | truthyInt                -- x % 2 as an int (truthy but not a bool)
   | floordiv (k : Nat)       -- x // k, k > 0
   | pairSelf                 -- (x, x)
@@ -57,9 +57,9 @@ def Fn1.eval : Fn1 → Val → Except Err Val
       let i ← intOf v
       pure (Val.lst ((List.range i.toNat).map fun j => Val.int (j : Nat)))
   | .divInto k, v => Val.div (.int k) v
-  | .raiseIfMod k r, v => do
+  | .raiseIfMod k r exc, v => do
       let i ← intOf v
-      if i % (k : Int) == (r : Int) then .error "ValueError" else pure v
+      if i % (k : Int) == (r : Int) then .error exc else pure v
   | .truthyInt, v => do let i ← intOf v; pure (.int (i % 2))
   | .floordiv k, v => do let i ← intOf v; pure (.int (i / (k : Int)))
   | .pairSelf, v => .ok (Val.tup [v, v])
@@ -85,7 +85,7 @@ inductive Fn2 where
   | append            -- acc + [x]  (Python: acc.append(x); return acc)
   | count
   | last
-  | raiseIfMod (k r : Nat)   -- raise ValueError when x % k == r else acc + x
+  | raiseIfMod (k r : Nat) (exc : String := "ValueError")   -- raise the named exception when x % k == r else acc + x
   | pairLast          -- (acc_last_count + 1, x)
   | appendFst         -- acc = (list, n): acc[0].append(x); return (acc[0], n + 1)   (a tuple seed holding a mutable list)
   deriving Repr
@@ -100,9 +100,9 @@ def Fn2.eval : Fn2 → Val → Val → Except Err Val
       | _ => .error "AttributeError"
   | .count, a, _ => Val.add a (.int 1)
   | .last, _, x => .ok x
-  | .raiseIfMod k r, a, x => do
+  | .raiseIfMod k r exc, a, x => do
       let i ← intOf x
-      if i % (k : Int) == (r : Int) then .error "ValueError" else Val.add a x
+      if i % (k : Int) == (r : Int) then .error exc else Val.add a x
   | .pairLast, a, x => do
       let c ← Val.add (a.nth 0) (.int 1)
       pure (Val.tup [c, x])
